@@ -161,6 +161,7 @@ type xl struct {
 	hoistLeaves int                  // operands seen so far while walking an expression in evaluation order
 	hoistFields int                  // … of which field reads, constants and calls left in place
 	stmts_      int
+	addrOf      *ast.Ident // the local whose address is being handed to a mutarg intrinsic (`&v` in that argument only)
 }
 
 // closureInfo: a local procedure.  A call `name()` is the body, inlined (a Go closure sees its captured variables by
@@ -248,7 +249,72 @@ func transTypeText(e ast.Expr) string {
 	return s
 }
 
+// structKey: an anonymous `struct{ A T; B U }` is named in the whitelist entry by its field names: "struct{A,B}"
+func structKey(st *ast.StructType) string {
+	var names []string
+	for _, f := range st.Fields.List {
+		for _, n := range f.Names {
+			names = append(names, n.Name)
+		}
+	}
+	return "struct{" + strings.Join(names, ",") + "}"
+}
+
+// checkStructDecl: the fields of a struct type written in the function are exactly the fields the entry declares
+func (x *xl) checkStructDecl(n ast.Node, st *ast.StructType, typ string) {
+	if !strings.HasPrefix(typ, "struct:") {
+		x.fail(n, "struct type mapped to %s", typ)
+	}
+	decl := x.fn.structs[typ[7:]]
+	var names []string
+	for _, f := range st.Fields.List {
+		if len(f.Names) == 0 {
+			x.fail(n, "embedded field in a local struct type")
+		}
+		for _, nm := range f.Names {
+			names = append(names, nm.Name)
+		}
+	}
+	if len(names) != len(decl) {
+		x.fail(n, "struct type %s has %d fields in the source, %d in the whitelist entry", typ, len(names), len(decl))
+	}
+	for i := range names {
+		if names[i] != decl[i].lean {
+			x.fail(n, "struct type %s: field %d is %s in the source, %s in the whitelist entry", typ, i, names[i], decl[i].lean)
+		}
+	}
+}
+
+// zeroLit: the zero value of a static type as a GoMini literal (structs: the tuple of their fields' zero values)
+func (x *xl) zeroLit(n ast.Node, typ string) string {
+	if z, ok := zeroOf(typ); ok {
+		return z
+	}
+	if z, ok := x.fn.zeros[typ]; ok {
+		return z
+	}
+	if strings.HasPrefix(typ, "struct:") {
+		var parts []string
+		for _, f := range x.fn.structs[typ[7:]] {
+			parts = append(parts, x.zeroLit(n, f.typ))
+		}
+		if len(parts) > 0 {
+			return ".list [" + strings.Join(parts, ", ") + "]"
+		}
+	}
+	x.fail(n, "zero value of %s", typ)
+	return ""
+}
+
 func (x *xl) goType(e ast.Expr) string {
+	if st, ok := e.(*ast.StructType); ok {
+		t, has := x.fn.types[structKey(st)]
+		if !has {
+			x.fail(e, "anonymous struct type (key %q) is not declared in the whitelist entry", structKey(st))
+		}
+		x.checkStructDecl(e, st, t)
+		return t
+	}
 	txt := transTypeText(e)
 	if t, ok := x.fn.types[txt]; ok {
 		return t
@@ -705,7 +771,11 @@ func (x *xl) expr(e ast.Expr) tx {
 		if _, rd, typ, ok := x.place(e); ok {
 			return tx{lean: rd, typ: typ}
 		}
-		x.fail(e, "dereference %s: only *recv of a pointer receiver with a mapped pointee is in the subset", exprString(e))
+		// *p where p is a nil-able pointer to an integer ("opt:<int>" = [] / [v]): the element; nil panics (as in Go)
+		if p, ok := x.tryExpr(t.X); ok && strings.HasPrefix(p.typ, "opt:") && isInt(p.typ[4:]) {
+			return tx{lean: "(.index " + p.lean + " (.lit (.int 0)))", typ: p.typ[4:]}
+		}
+		x.fail(e, "dereference %s: only *recv of a pointer receiver with a mapped pointee and *p of an opt:<int> are in the subset", exprString(e))
 	case *ast.UnaryExpr:
 		if t.Op == token.AND { // &T{a, b}: a constructor the entry gives a meaning to (shim "&T")
 			if cl, ok := t.X.(*ast.CompositeLit); ok {
@@ -723,6 +793,10 @@ func (x *xl) expr(e ast.Expr) tx {
 				}
 				return tx{lean: "(.call " + leanStr(sh.f) + " [" + strings.Join(args, ", ") + "])", typ: sh.res[0]}
 			}
+		}
+		if t.Op == token.AND && x.addrOf != nil && t.X == ast.Expr(x.addrOf) { // &v handed to a mutarg intrinsic: v's value
+			v, _ := x.lookup(x.addrOf.Name)
+			return tx{lean: "(.loc " + leanStr(v.lean) + ")", typ: v.typ}
 		}
 		if t.Op == token.AND { // &v where v is the second object: the object value itself
 			if id, ok := t.X.(*ast.Ident); ok && id.Name == x.otherVar && x.otherVar != "" && x.fn.otherAs != nil {
@@ -1351,8 +1425,19 @@ func (x *xl) callExpr(c *ast.CallExpr) (tx, bool) {
 			x.fail(c, "shim %s on %s", sh.kind, key)
 		}
 		args = append(args, x.withArgs(c, sh, key)...)
+		// the written argument may be `&v` for a local v (json Decode(&pld)): the intrinsic is handed v and returns its new value
+		target := c.Args[idx]
+		if u, ok := target.(*ast.UnaryExpr); ok && u.Op == token.AND {
+			if id, isId := u.X.(*ast.Ident); isId {
+				if _, isLoc := x.lookup(id.Name); isLoc {
+					target = id
+					x.addrOf = id
+				}
+			}
+		}
 		addArgs()
-		lv, _ := x.lvalue(c.Args[idx])
+		x.addrOf = nil
+		lv, _ := x.lvalue(target)
 		pendingCall = &tcall{ctor: "callX", f: sh.f, args: args, res: sh.res, pre: []string{lv}}
 		x.addTrace(c, sh, key, args)
 		pendingCall.pureTrace = false
@@ -2597,11 +2682,7 @@ func (x *xl) decl(t *ast.DeclStmt) string {
 					}
 					val = x.coerce(vs, v, typ).lean
 				} else {
-					z, ok := zeroOf(typ)
-					if !ok {
-						x.fail(t, "zero value of %s", typ)
-					}
-					val = "(.lit (" + z + "))"
+					val = "(.lit (" + x.zeroLit(t, typ) + "))"
 				}
 				if n.Name == "_" {
 					continue
@@ -2611,6 +2692,19 @@ func (x *xl) decl(t *ast.DeclStmt) string {
 			}
 		}
 		return block(out)
+	}
+	if gd.Tok == token.TYPE {
+		// a local `type T struct {…}`: the entry declares T (types + structs); the field list is checked against it
+		for _, sp := range gd.Specs {
+			ts := sp.(*ast.TypeSpec)
+			st, isStruct := ts.Type.(*ast.StructType)
+			typ, has := x.fn.types[ts.Name.Name]
+			if !isStruct || !has || ts.TypeParams != nil {
+				x.fail(t, "local type %s: only struct types the whitelist entry declares are in the subset", ts.Name.Name)
+			}
+			x.checkStructDecl(t, st, typ)
+		}
+		return ".skip"
 	}
 	x.fail(t, "declaration %s is outside the subset", gd.Tok)
 	return ""
